@@ -181,4 +181,7 @@ SUBS = [
     Sub(name='pipeline', kind='hyp', run=run_pipeline, strategy=pipeline_cases,
         rule='hopping trajectories through transitions/Jumps/collective(max_dist): window = ceil(1/(attempt frequency x time step)), pairs vs model on the real jump table',
         n={'quick': 60, 'thorough': 1000}, shards={'quick': 4, 'thorough': 16}),
+    Sub(name='fuzz-collective', kind='fuzz', run=run_table, target='collective',
+        rule='thorough tier only: atheris (libFuzzer) coverage-guided campaign on the Python-level classifier with the property oracle inside the target; bytes are decoded into a structured case; empty and seeded corpus shards; non-trivial counted but not de-duplicated',
+        n={'quick': 0, 'thorough': 60000}, shards={'quick': 1, 'thorough': 16}),
 ]
